@@ -110,7 +110,7 @@ def bounded_search(prop, tier, work):
     for oid, group, where, what in BOUNDED_SEARCH[prop]:
         w, cmd = replay._run_group(group, work)
         tried = getattr(replay._run_group, 'last_tried', None)
-        bound = 'bounded: all graphs with <= 4 nodes (8 kinds, <= 5 edges for n <= 3, <= 3 edges for n = 4, unweighted, weights 1.0 / 0.0 / 2.5 / f64::MAX where the oracle allows them, and strictly positive weights 1.0 / 2.5 / 3.5), %s' % what
+        bound = 'bounded: all graphs with <= 4 nodes (8 kinds, <= 5 edges for n <= 3, <= 3 edges for n = 4, unweighted, weights 1.0 / 0.0 / 2.5 / f64::MAX where the oracle allows them, strictly positive weights 1.0 / 2.5 / 3.5 in three arrangements and weights below 1.0), %s' % what
         if w:
             out.append({'id': oid, 'harness': 'verif_search:' + group, 'strength': 'bounded', 'where': where, 'status': 'failed',
                         'detail': '%s; witness: %s' % (bound, str(w)[:400]),
